@@ -138,6 +138,12 @@ def main():
     mode = sys.argv[2]
     seed = int(os.environ.get("VERIF_SEED", "1") or "1")
     pkgdir = os.path.join(ROOT, cfg["pkg"])
+    # one invocation per property at a time: the build output, the shard
+    # directories and the evidence file are per property
+    import fcntl
+    os.makedirs(os.path.join(ROOT, "out", pid), exist_ok=True)
+    lock = open(os.path.join(ROOT, "out", pid, ".lock"), "w")
+    fcntl.flock(lock, fcntl.LOCK_EX)
     t_start = time.time()
 
     if mode == "--replay":
